@@ -127,6 +127,14 @@ struct Gates
 };
 static Gates g_gates;
 
+// Dispatch counter, independent of the model and of the responses: the ThreadPool's verification point "tp:popped" fires once per
+// task a worker takes; during an end-to-end run the only tasks of the process are processHttpRequest dispatches of the e2e server.
+static std::atomic<long> g_popped{0};
+static void onVerifPoint(const char* tag)
+{
+  if (tag && std::strcmp(tag, "tp:popped") == 0) ++g_popped;
+}
+
 // ---------------------------------------------------------------- scripted handlers
 struct Action
 {
@@ -550,6 +558,7 @@ static std::string guarded(const std::function<std::string()>& f)
 int main()
 {
   iora::core::Logger::setLevel(iora::core::Logger::Level::Fatal);
+  iora::verif::pointHook() = &onVerifPoint;
   Lock L;
   L.make();
   E2E E;
@@ -673,6 +682,18 @@ int main()
         if (!L.waitQuiescent(5000)) return "pool-not-quiescent";
         return L.delta();
       }
+      if (t.size() >= 5 && t[0] == "parrn" && vh::parseNat(t[1], n) && vh::ofHex(t[2], d))
+      {
+        // k complete requests (given to the model in their extracted form by the remaining tokens) in ONE read of any size
+        SessionId sid = static_cast<SessionId>(n);
+        {
+          std::lock_guard<std::mutex> g(L.s->_sessionMutex);
+          L.s->_sessionInfo[sid];
+        }
+        L.s->handleIncomingData(sid, d.data(), d.size());
+        if (!L.waitQuiescent(10000)) return "pool-not-quiescent";
+        return L.delta();
+      }
       if (t.size() == 2 && t[0] == "prel" && vh::parseNat(t[1], n))
       {
         g_gates.release(static_cast<long>(n));
@@ -752,6 +773,7 @@ int main()
         if (!vh::parseNat(t[3], linger) || !E.s) return "bad-op";
         std::vector<ConnResult> res(t.size() - 4);
         std::vector<std::thread> th;
+        long popped0 = g_popped.load();
         for (std::size_t i = 4; i < t.size(); ++i)
           th.emplace_back([&, i] { res[i - 4] = runConn(E.port, t[i], static_cast<int>(n), static_cast<int>(linger)); });
         for (auto& x : th) x.join();
@@ -765,6 +787,8 @@ int main()
           else o += "big:" + std::to_string(r.data.size()) + ":" + vh::toHex(r.data.substr(0, 4096));
           o += std::string(":") + (r.eof ? "1" : "0") + ":" + (r.timedOut ? "1" : "0");
         }
+        // requests the server handed to its worker pool during this run (all connections together)
+        o += " D=" + std::to_string(g_popped.load() - popped0);
         return o;
       }
       return "bad-op";
